@@ -12,8 +12,9 @@ META = dict(
                "table (default: may raise anything; the calls assumed not to raise are listed one by one) every call that "
                "may raise sits in a try that catches it with a handler ending in set_error_state (`decide`); (2) a model "
                "of the try/except shell of Engine.tick executes that phase table under a fault plan: for every plan that "
-               "respects the raise table a tick does not raise; a raising interpreter phase ends paused with Method "
-               "Status Error; an accepted Stop stops the run within `stopTicks` command phases whatever guarded faults "
+               "respects the raise table a tick does not raise (all states); a raising interpreter phase ends the run "
+               "paused with Method Status Error; an error while no run is active is only reported (state stays Stopped, "
+               "Start accepted); an accepted Stop stops the run within `stopTicks` command phases whatever guarded faults "
                "recur; a merged corrected method clears the error and Unpause resumes; what happens when an unguarded "
                "phase or set_error_state itself raises; (3) over the interpreter model a raising instruction marks its "
                "node failed and stores the error, micro-steps never clear it, an accepted method edit clears it. Tie: "
@@ -38,7 +39,9 @@ MODULE = "OPM.Properties.C13"
 REQUIRED = ["OPM.C13.calls_accounted", "OPM.C13.guarded_sites_present", "OPM.C13.set_error_state_shape",
             "OPM.C13.table_wf", "OPM.C13.phases_guarded", "OPM.C13.tick_never_raises",
             "OPM.C13.tick_never_raises_guarded", "OPM.C13.unguarded_fault_escapes",
-            "OPM.C13.failing_instruction_pauses", "OPM.C13.last_error_persists",
+            "OPM.C13.failing_instruction_pauses", "OPM.C13.error_pauses_a_run",
+            "OPM.C13.error_without_run_only_reports", "OPM.C13.error_while_no_run",
+            "OPM.C13.error_while_no_run_is_reported", "OPM.C13.start_after_idle_error", "OPM.C13.last_error_persists",
             "OPM.C13.stop_accepted_in_error_state", "OPM.C13.stop_completes", "OPM.C13.stop_completes_clean",
             "OPM.C13.stop_completes_whatever_recurs", "OPM.C13.corrected_method_clears_error",
             "OPM.C13.corrected_method_resumes", "OPM.C13.C13_counterexample", "OPM.C13.C13_partial",
@@ -541,6 +544,15 @@ def fault_stream(ctx: Check, n: int) -> None:
             up + [["user", "Stop"], ["fix"], ["tick", {}, "n"], ["tick", {}, "n"], ["user", "Stop"], ["tick", {}, "n"],
                   ["tick", {}, "n"]],
             up + [["fix"], ["user", "Unpause"], ["tick", {}, "n"], ["tick", {}, "n"]],
+        ]
+        # an error while no run is active (before the first run; after a Stop): reported, state stays Stopped, Start accepted
+        fixed_cases += [
+            [["tick", {}, "n"], ["tick", {k: "o"}, "n"], ["tick", {}, "n"], ["user", "Pause"], ["user", "Start"],
+             ["tick", {}, "n"], ["tick", {}, "n"], ["tick", {ip: "o"}, "n"]] for k in (cm, nt)
+        ] + [
+            [["tick", {rd: "h"}, "n"], ["tick", {wr: "h"}, "n"], ["user", "Start"], ["tick", {}, "n"], ["tick", {rd: "h"}, "n"]],
+            up + [["user", "Stop"], ["tick", {}, "n"], ["tick", {}, "n"], ["tick", {nt: "o"}, "n"], ["tick", {cm: "o"}, "n"],
+                  ["user", "Stop"], ["user", "Start"], ["tick", {}, "n"], ["tick", {}, "n"]],
         ]
     cases = fixed_cases + [gen_fault_case(ctx.rng, phases) for _ in range(n)]
     for c in cases:
